@@ -409,6 +409,25 @@ pub fn replay(path: &str, out: &str, no_impl: bool) -> anyhow::Result<()> {
     for line in text.lines() {
         if line.trim().is_empty() { continue; }
         let j: Value = serde_json::from_str(line)?;
+        let strs = |k: &str| -> Vec<String> {
+            j.get(k).and_then(|v| v.as_array()).map(|a| a.iter().filter_map(|x| x.as_str().map(String::from)).collect()).unwrap_or_default()
+        };
+        match j.get("op").and_then(|v| v.as_str()) {
+            Some("glob") => {
+                let ij = if no_impl { json!({"skipped": true}) } else { crate::gen_glob::real(&strs("globs"), &strs("ignores"), j["path"].as_str().unwrap_or("")) };
+                rows.push((j.clone(), ij));
+                continue;
+            }
+            Some("lookup") => {
+                let extra: BTreeMap<String, String> = j.get("extra").and_then(|v| v.as_object()).map(|m| {
+                    m.iter().filter_map(|(k, v)| v.as_str().map(|s| (k.clone(), s.to_string()))).collect()
+                }).unwrap_or_default();
+                let ij = if no_impl { json!({"skipped": true}) } else { json!({"class": impl_class(&mut ctx, j["path"].as_str().unwrap_or(""), &extra)}) };
+                rows.push((j.clone(), ij));
+                continue;
+            }
+            _ => {}
+        }
         let case = case_from_json(&j);
         let cj = case_json(&mut ctx, &case);
         let ij = if no_impl { json!({"skipped": true}) } else { run_impl(&mut ctx, &case) };
